@@ -26,7 +26,6 @@ type complyRg struct {
 
 func genChfComply(o genOpts, w *bufio.Writer) {
 	r := &rng{s: o.seed ^ 0x5eed06}
-	lsn := 0
 	for done := 0; done < o.n; {
 		fmt.Fprintf(w, "chf reset\n")
 		counter := 0
@@ -34,6 +33,7 @@ func genChfComply(o genOpts, w *bufio.Writer) {
 			supi, sid string
 			rgs       map[int]*complyRg
 			live      bool
+			cseq      map[int]int // containers are numbered per charging session and rating group: a later session starts at 1 again
 		}
 		var subs []*sub
 		nsub := 1 + r.intn(2)
@@ -128,8 +128,11 @@ func genChfComply(o genOpts, w *bufio.Writer) {
 						part = left / 2
 					}
 					left -= part
-					lsn++
-					conts = append(conts, fmt.Sprintf("1 %d %d %d %d %d", part, part/2, part-part/2, r.intn(3), lsn))
+					if s.cseq == nil {
+						s.cseq = map[int]int{}
+					}
+					s.cseq[rg]++
+					conts = append(conts, fmt.Sprintf("1 %d %d %d %d %d", part, part/2, part-part/2, r.intn(3), s.cseq[rg]))
 				}
 				usages = append(usages, fmt.Sprintf("%d %s %s %d %s", rg, reqTok, hexOf([]byte("upf1")), nc, joinStrings(conts, " ")))
 			}
@@ -144,6 +147,18 @@ func genChfComply(o genOpts, w *bufio.Writer) {
 			}
 			fmt.Fprintf(w, "chf %s %s %s\n", op, hexOf([]byte(s.sid)), fmtReq(s.supi, "smf", 100, i+1, 1, 0, trigs, usages))
 			done++
+			if last && i < steps-2 && r.chance(60) {
+				// the consumer's next charging session for the same subscriber (the first one is over: nothing granted is outstanding)
+				fmt.Fprintf(w, "chf create %s\n", fmtReq(s.supi, "smf", 100, 0, 1, 0, nil, nil))
+				s.sid = s.supi + "smf-" + strconv.Itoa(counter)
+				counter++
+				done++
+				s.live = true
+				s.cseq = nil
+				for _, st := range s.rgs {
+					st.grantLB = 0
+				}
+			}
 			if !last && r.chance(7) {
 				// the operator credits the account and tells the CHF: the rating group is back in reserve mode
 				rg := 1 + r.intn(2)
